@@ -8,6 +8,8 @@ import DendroModel.Theory.C15Level
 import DendroModel.Theory.C15Apply
 import DendroModel.Theory.C15Heap
 import DendroModel.Theory.C15Nbr
+import DendroModel.Theory.C15Calls
+import DendroModel.Theory.C15Gen
 import DendroModel.Gen.C15Filters
 /-! C15 — property theorems: every traversal machine yields exactly its defining order, for every
 tree, every start node (a start node is the root of the `T` the machine is run on) and every filter.
@@ -1514,5 +1516,140 @@ theorem len_bridge (t : T) :
   constructor <;> omega
 
 example : C15Filters.treeLen 3 = 3 := by decide
+
+end DendroModel.C15
+
+/-! ## wave 2: the filter CALL sequence is part of the machines
+
+`Model/C15Calls.lean` runs the same stack / queue machines but emits, for every popped item, whether `filter_fn` is
+called on it (`shown`) and whether it is yielded.  The composed filters of the wrappers short-circuit, so the user's
+predicate is shown exactly the items of the iterator's domain. -/
+namespace DendroModel.C15
+open DendroModel DendroModel.C15.Aux DendroModel.C15.CallsAux
+
+/-- the traced machines are conservative extensions of the plain ones: what they yield is the plain machine under
+`guard && keep`, what they show to the filter is the plain machine under the structural guard alone — for every guard,
+filter and tree -/
+theorem traced_machines_conservative (guard keep : T → Bool) (t : T) :
+    (yieldL (preIterE guard keep t) = preIter (fun x => guard x && keep x) t
+      ∧ shownL (preIterE guard keep t) = preIter guard t)
+    ∧ (yieldL (postIterE guard keep t) = postIter (fun x => guard x && keep x) t
+      ∧ shownL (postIterE guard keep t) = postIter guard t)
+    ∧ (yieldL (levelIterE guard keep t) = levelIter (fun x => guard x && keep x) t
+      ∧ shownL (levelIterE guard keep t) = levelIter guard t) := by
+  refine ⟨⟨preRunE_yield guard keep _ _, preRunE_shown guard keep _ _⟩,
+    ⟨postRunE_yield guard keep _ _, postRunE_shown guard keep _ _⟩, ?_, ?_⟩
+  · unfold levelIterE levelIter
+    rw [yieldL_append, yieldL_visit, levelRunE_yield]
+  · unfold levelIterE levelIter
+    rw [shownL_append, shownL_visit, levelRunE_shown]
+
+/-- the filter call sequence of the plain and the leaf iterators: the filter is shown exactly the items of the unfiltered
+defining order, each once, in that order, whatever it answers — all nodes in pre, post and level order, the children for
+`child_node_iter`; the LEAF iterator shows it the leaves left to right and never an internal node, and still yields
+what `leafIter` yields -/
+theorem filter_calls_spec (keep : T → Bool) (t : T) :
+    shownL (preIterE (fun _ => true) keep t) = pre t
+    ∧ shownL (postIterE (fun _ => true) keep t) = post t
+    ∧ shownL (levelIterE (fun _ => true) keep t) = bfs (height t) [t]
+    ∧ shownL (childRunE keep t.cs) = t.cs
+    ∧ shownL (leafIterE keep t) = T.leaves t
+    ∧ (∀ x ∈ shownL (leafIterE keep t), x.isLeaf = true)
+    ∧ yieldL (leafIterE keep t) = leafIter keep t := by
+  have hleaf : shownL (leafIterE keep t) = (post t).filter (fun x => x.isLeaf) := by
+    unfold leafIterE
+    rw [(traced_machines_conservative _ keep t).2.1.2, postorder_spec]
+  refine ⟨?_, ?_, ?_, childRunE_shown keep t.cs, ?_, ?_, ?_⟩
+  · rw [(traced_machines_conservative _ keep t).1.2, preorder_spec, filter_true]
+  · rw [(traced_machines_conservative _ keep t).2.1.2, postorder_spec, filter_true]
+  · rw [(traced_machines_conservative _ keep t).2.2.2, levelorder_spec, filter_true]
+  · rw [hleaf]
+    have := post_filter_leaf (fun _ => true) t
+    simpa using this
+  · intro x hx
+    rw [hleaf] at hx
+    exact (List.mem_filter.mp hx).2
+  · unfold leafIterE leafIter
+    exact (traced_machines_conservative _ keep t).2.1.1
+
+/-- corner cases: a single node is a leaf (shown, as the only item); on `((2)1,3)0` the leaf iterator shows 2 and 3 only,
+although it walks all four nodes -/
+example : (shownL (leafIterE (fun _ => false) (.node 0 none none none []))).map T.id = [0]
+    ∧ (shownL (leafIterE (fun x => x.id == 3)
+        (.node 0 none none none [.node 1 none none none [.node 2 none none none []], .node 3 none none none []]))).map T.id = [2, 3]
+    ∧ (yieldL (leafIterE (fun x => x.id == 3)
+        (.node 0 none none none [.node 1 none none none [.node 2 none none none []], .node 3 none none none []]))).map T.id = [3] := by
+  decide
+
+/-- the filter call sequence of the internal-node iterators (ids below the start differ from the start's, as on every
+protocol tree): the filter is shown exactly the non-leaves, the start dropped iff exclusion is requested and it has no
+parent — never a leaf, never the excluded seed — in pre-order resp. post-order; and the traced machine yields what the
+driver's `preIter (internalKeep …)` / `postIter (internalKeep …)` yield -/
+theorem internal_filter_calls_spec (excl hasParent : Bool) (keep : T → Bool) (t : T)
+    (hid : ∀ x ∈ T.nodesL t.cs, x.id ≠ t.id) :
+    shownL (preIterE (internalGuard excl t.id hasParent) keep t)
+      = (if (excl && !hasParent) = true then [] else [t].filter (fun x => !x.isLeaf))
+        ++ (T.nodesL t.cs).filter (fun x => !x.isLeaf)
+    ∧ shownL (postIterE (internalGuard excl t.id hasParent) keep t)
+      = (postL t.cs).filter (fun x => !x.isLeaf)
+        ++ (if (excl && !hasParent) = true then [] else [t].filter (fun x => !x.isLeaf))
+    ∧ yieldL (preIterE (internalGuard excl t.id hasParent) keep t) = preIter (internalKeep excl t.id hasParent keep) t
+    ∧ yieldL (postIterE (internalGuard excl t.id hasParent) keep t) = postIter (internalKeep excl t.id hasParent keep) t := by
+  have hsplit : (fun x => internalGuard excl t.id hasParent x && keep x) = internalKeep excl t.id hasParent keep :=
+    funext (fun x => (internalKeep_split excl hasParent t.id keep x).symm)
+  have hspec := internal_nodes_spec excl hasParent (fun _ => true) t hid
+  simp only [Bool.and_true] at hspec
+  refine ⟨?_, ?_, ?_, ?_⟩
+  · rw [(traced_machines_conservative _ keep t).1.2]
+    exact hspec.1
+  · rw [(traced_machines_conservative _ keep t).2.1.2]
+    exact hspec.2
+  · rw [(traced_machines_conservative _ keep t).1.1, hsplit]
+  · rw [(traced_machines_conservative _ keep t).2.1.1, hsplit]
+
+/-- `preorder_internal_node_iter(exclude_seed_node=True)` from the seed of `((2)1,3)0`: the filter is shown node 1 only -/
+example : (shownL (preIterE (internalGuard true 0 false) (fun _ => false)
+    (.node 0 none none none [.node 1 none none none [.node 2 none none none []], .node 3 none none none []]))).map T.id = [1] := by
+  decide
+
+/-- corner cases of `edge_order_spec` / `internal_edge_spec`: on a single-node tree the seed edge is terminal, so
+`postorder_internal_edge_iter` / `preorder_internal_edge_iter` yield nothing (with and without exclusion), while the
+plain edge iterators yield the seed edge (a seeded change once yielded the terminal seed edge as "internal") -/
+example : (postEdgeIter (fun e => internalKeep false 0 false (fun _ => true) e.head) (.node 0 none none none [])).map (fun e => e.head.id) = []
+    ∧ (preEdgeIter (fun e => internalKeep false 0 false (fun _ => true) e.head) (.node 0 none none none [])).map (fun e => e.head.id) = []
+    ∧ (postEdgeIter (fun e => internalKeep true 0 false (fun _ => true) e.head) (.node 0 none none none [])).map (fun e => e.head.id) = []
+    ∧ (postEdgeIter (fun _ => true) (.node 0 none none none [])).map (fun e => e.head.id) = [0]
+    ∧ (treeInternalEdges false (.node 0 none none none [])).map (fun e => e.head.id) = [] := by decide
+
+end DendroModel.C15
+
+/-! ## wave 2: `postorder_iter` / `leaf_iter` one `next()` at a time (state after partial consumption) -/
+namespace DendroModel.C15
+open DendroModel DendroModel.C15.HeapAux DendroModel.C15.GenAux
+
+/-- the post-order and the leaf heap generators (`poNext`, `lfNext`: the explicit stack of `(node, state)` pairs kept in
+the generator's private list between two `next()` calls) keep their generator number, write only their own private list
+— never a node's child list, never another generator's stack — and read only the node lists and their own stack, for
+every fuel -/
+theorem postorder_generator_steps_local (fuel : Nat) : Local (poNext fuel) ∧ Local (lfNext fuel) :=
+  ⟨poNextW_local _ (fun _ _ _ _ => rfl) fuel, poNextW_local _ (fun h h' n hk => by simp [hk]) fuel⟩
+
+/-- hence a suspended post-order (or leaf) generator is not disturbed by any other generator stepped in between, of
+whatever kind (pre-, level-, post-order, leaf): under every interleaving each returns exactly what it returns alone -/
+theorem postorder_generators_independent (fuel : Nat) (n2 : Heap → LvSt → Heap × LvSt × Option Nat) (h2 : Local n2)
+    (σ : List Bool) (h : Heap) (s1 s2 : LvSt) (hne : s1.q ≠ s2.q) :
+    (((gSched (poNext fuel) n2 h s1 s2 σ).filter (fun e => e.1)).map (fun e => e.2) = gSolo (poNext fuel) h s1 (σ.count true)
+      ∧ ((gSched (poNext fuel) n2 h s1 s2 σ).filter (fun e => !e.1)).map (fun e => e.2) = gSolo n2 h s2 (σ.count false))
+    ∧ (((gSched (lfNext fuel) n2 h s1 s2 σ).filter (fun e => e.1)).map (fun e => e.2) = gSolo (lfNext fuel) h s1 (σ.count true)
+      ∧ ((gSched (lfNext fuel) n2 h s1 s2 σ).filter (fun e => !e.1)).map (fun e => e.2) = gSolo n2 h s2 (σ.count false)) :=
+  ⟨any_generators_independent _ n2 (postorder_generator_steps_local fuel).1 h2 σ h s1 s2 hne,
+   any_generators_independent _ n2 (postorder_generator_steps_local fuel).2 h2 σ h s1 s2 hne⟩
+
+/-- the generators on `((2)1,3)0` (array with an unreachable 2-cycle): post-order 2 1 3 0 then StopIteration, leaves 2 3
+then StopIteration; a post-order generator abandoned after two items and a level-order generator stepped in between -/
+example : gSolo (poNext 14) (heapOf #[-1, 0, 1, 0, 5, 4]) ⟨0, .init 0⟩ 6 = [some 2, some 1, some 3, some 0, none, none]
+    ∧ gSolo (lfNext 14) (heapOf #[-1, 0, 1, 0, 5, 4]) ⟨0, .init 0⟩ 4 = [some 2, some 3, none, none]
+    ∧ gSched (poNext 14) lvNext (heapOf #[-1, 0, 1, 0, 5, 4]) ⟨0, .init 0⟩ ⟨1, .init 0⟩ [true, false, true, false, false]
+      = [(true, some 2), (false, some 0), (true, some 1), (false, some 1), (false, some 3)] := by decide
 
 end DendroModel.C15
